@@ -100,9 +100,9 @@ func Project(prop string, line string) string {
 		}
 		return "act=" + f["act"] + crash + " " + strings.Join(tg, " ")
 	case "C03":
-		return "res=" + f["res"] + " act=" + f["act"] + " clk=" + f["clk"] + " qt=" + f["qt"] + crash
+		return "res=" + f["res"] + " act=" + f["act"] + " clk=" + f["clk"] + " qt=" + f["qt"] + crash + " " + sel("N")
 	case "C04":
-		return "res=" + f["res"] + " qt=" + f["qt"] + " q=" + f["q"] + crash + " " + sel("MQ", "TI", "QE")
+		return "res=" + f["res"] + " qt=" + f["qt"] + " q=" + f["q"] + crash + " " + sel("MQ", "TI", "QE", "N")
 	case "C05":
 		return sel("H") + crash
 	case "C07":
